@@ -62,8 +62,12 @@ class Report:
         """A refuted obligation. replay_obj is written to replays/. Known findings are matched by key."""
         for f in self.known.get("findings", []):
             if f["property"] == self.prop and fnmatch.fnmatchcase(key, f["key"]):
+                if any(h["key"] == key for h in self.known_hits):
+                    return "known"
                 self.known_hits.append(dict(key=key, finding=f["key"], what=f.get("what", what)))
                 return "known"
+        if any(v["key"] == key for v in self.violations):
+            return "dup"
         os.makedirs(os.path.join(ROOT, "replays"), exist_ok=True)
         safe = "".join(ch if ch.isalnum() or ch in "-_." else "_" for ch in key)[:120]
         path = os.path.join(ROOT, "replays", f"{self.prop}-{safe}.json")
